@@ -220,6 +220,10 @@ def _graph_level(case):
         else:
             fin.append(g)
     o.update(remaps=remaps, hx=hx, base=base, glue_ms=glue_ms, glued=glued, fin=fin)
+    # the reactor's own kept mappings (implicit path, at most 8, no crash): model and implementation build its_list from them
+    usable = (not flag) and its_err is None and len(mappings) <= 8 and len(its_list) == len(mappings)
+    o["kept"] = mappings if usable else []
+    o["kept_regen"] = (1 if any(_regen_bits(g, A, B)[1] for g in its_list) else 0) if usable else 0
     o["regen"] = [None if f is None else _regen_bits(f, A, B) for f in fin]
     o["in_its_list"] = any(_regen_bits(g, A, B)[1] for g in its_list)
     return o
@@ -248,7 +252,7 @@ def prepare(case):
     try:
         case["pre"] = {"G": _host_json(o["G"]), "H": _host_json(o["H"]),
                        "remaps": None if o["remaps"] is None else [[int(n) for n in o["idm"]], [K.map_pairs(m) for m in o["remaps"]]],
-                       "guard": o["guard"],
+                       "guard": o["guard"], "kept": [K.map_pairs(m) for m in o["kept"]],
                        "nchanged": sum(1 for _, _, d in o["rc0"].edges(data=True) if d["order"][0] != d["order"][1]),
                        "mode": o["mode"], "outside": bool(o["outside"])}
     except Exception as e:
@@ -288,11 +292,19 @@ def history(case):
 
 def impl(case):
     if case.get("hist"):
-        base = _impl_plain(case)
+        base = _impl_kept(case)
         if base == ["SKIP"]:
             return base
         return [base, [1 if rec["equal"] else 0 for rec in history(case)]]
-    return _impl_plain(case)
+    return _impl_kept(case)
+
+
+def _impl_kept(case):
+    base = _impl_plain(case)
+    if base == ["SKIP"]:
+        return base
+    o = graph_level(case)
+    return [base, o["kept_regen"]]
 
 
 def _impl_plain(case):
@@ -406,8 +418,10 @@ def coq_case(case):
     rm = pre["remaps"]
     cr = "None" if rm is None else "(Some (%s, %s))" % (K.cl([K.cN(n) for n in rm[0]]),
                                                         K.cl([K.cl(["(%s, %s)" % (K.cN(p), K.cN(h)) for p, h in x]) for x in rm[1]]))
-    term = "run_c04 %s %s %s %s %s %s" % (K.cb(case["core"]), K.cb(case["invert"]), K.cb(pre.get("guard", False)),
-                                          _c_hostj(pre["G"]), _c_hostj(pre["H"]), cr)
+    kept = pre.get("kept") or []
+    ck = K.cl([K.cl(["(%s, %s)" % (K.cN(p), K.cN(h)) for p, h in x]) for x in kept])
+    term = "run_c04k %s %s %s %s %s %s %s" % (K.cb(case["core"]), K.cb(case["invert"]), K.cb(pre.get("guard", False)),
+                                              _c_hostj(pre["G"]), _c_hostj(pre["H"]), cr, ck)
     if case.get("hist"):
         k = sum(1 for st in HI.SCRIPTS[case["hist"]] if st[0] != "edit")
         return "L [%s; pure_history %d%%nat]" % (term, k)
@@ -566,9 +580,17 @@ def _explained_by_outside(o):
 
 # ------------------------------------------------------------------ evidence helpers
 
-def nontrivial(case, obs):
+def _unwrap(case, obs):
+    """observable layers: [[plain, kept bit], history bits] / [plain, kept bit]"""
     if case.get("hist") and isinstance(obs, list) and len(obs) == 2 and isinstance(obs[0], list):
         obs = obs[0]
+    if isinstance(obs, list) and len(obs) == 2 and isinstance(obs[0], list) and obs[1] in (0, 1):
+        obs = obs[0]
+    return obs
+
+
+def nontrivial(case, obs):
+    obs = _unwrap(case, obs)
     if not isinstance(obs, list) or not obs or obs[0] in ("SKIP", "EXC"):
         return False
     return bool(obs[5]) and (case.get("pre") or {}).get("nchanged", 0) >= 2
@@ -588,9 +610,13 @@ def distribution(cases, obss):
         if c.get("hist") and len(o) == 2 and isinstance(o[0], list):
             d["history_scripts"][c["hist"]] = d["history_scripts"].get(c["hist"], 0) + 1
             d["history_steps"] += len(o[1])
-            o = o[0]
-            if o and o[0] == "SKIP":
+            if o[0] and o[0][0] == "SKIP":
                 continue
+        if isinstance(o, list) and len(o) == 2 and isinstance(o[0], list) and o[1] in (0, 1) and not c.get("hist"):
+            d["kept_regenerates"] = d.get("kept_regenerates", 0) + o[1]
+        o = _unwrap(c, o)
+        if True:
+            pass
         pre = c.get("pre") or {}
         for k, v in (("mode", pre.get("mode")), ("template", _tplkind(c)), ("direction", _dir(c)), ("strategy", c.get("strategy")),
                      ("variant", "original" if not c.get("variant") else "rewritten"), ("corpus", str(c.get("cid", "?")).split("#")[0].split(":")[0])):
